@@ -1,4 +1,5 @@
 import Dtr.Proofs.RowIt
+import Dtr.Model.AfterError
 /-!
 # C02 — driver protocol: defaults first, then exactly one call per row, passed verbatim
 
@@ -148,6 +149,105 @@ theorem C02_next_calls {δ : Type} (tc : TestCase) (drv : Driver δ) (fuel : Nat
         cases resp with
         | some e => simp
         | none => simp [intoDataRow]
+
+/-- **The same accounting for a `next()` behind an error item** (`RowIt.nextC`: the state the code is left in
+behind an error item, `Model/AfterError`): the end makes no call, a row exactly one call with the row's
+inputs, a driver error is the failing call itself, any other error item at most one call. -/
+theorem C02_next_calls_continued {δ : Type} (tc : TestCase) (drv : Driver δ) (fuel : Nat) (s : RowIt) (d : δ) :
+    match s.nextC tc drv fuel d with
+    | .none _ d' => d' = d
+    | .item (.row r) _ _ calls =>
+        ∃ c, calls = [c] ∧ c.inputs = r.inputs ∧ (c.kind = .writeOnly → r.outputs = [])
+    | .item (.err (.driver e)) _ _ calls => ∃ c, calls = [c] ∧ c.resp = .fail e
+    | .item (.err _) _ _ calls => calls.length ≤ 1
+    | .panic _ calls => calls.length ≤ 1
+    | .fuel => True := by
+  unfold RowIt.nextC
+  cases hg : getRow tc fuel s with
+  | err e => simp
+  | panic m => simp
+  | fuel => simp
+  | none s' => simp
+  | row ev sg =>
+    simp only
+    by_cases hu : ev.upd = true
+    · simp only [hu, if_true]
+      cases hrw : drv.rw d ev.inputs with
+      | mk d1 resp =>
+        cases resp with
+        | fail e => simp
+        | ok outs =>
+          simp only
+          cases hx : extractOutputs tc sg.outIdx sg.numOut outs (sg.ctx.setOutputs (outsOf outs)) with
+          | mk res c2 =>
+            cases res with
+            | ok vals => simp [intoDataRow]
+            | err e =>
+              cases e with
+              | driver e' =>
+                have := extractOutputs_not_driver tc sg.outIdx sg.numOut outs (sg.ctx.setOutputs (outsOf outs)) e'
+                rw [hx] at this; exact absurd rfl this
+              | wrongNumberOfOutputs a b => simp
+              | wrongOutputOrder => simp
+              | missingOutputs n => simp
+              | expr e' => simp
+            | panic m => simp
+    · simp only [hu, Bool.false_eq_true, if_false]
+      cases hwo : drv.wo d ev.inputs with
+      | mk d1 resp =>
+        cases resp with
+        | some e => simp
+        | none => simp [intoDataRow]
+
+/-- what one `next()` contributed to the history: the item (`none` = the end) and the calls made for it -/
+def StepAccounted (i : Option Item) (calls : List Call) : Prop :=
+  match i with
+  | none => calls = []
+  | some (.row r) => ∃ c, calls = [c] ∧ c.inputs = r.inputs ∧ (c.kind = .writeOnly → r.outputs = [])
+  | some (.err (.driver e)) => ∃ c, calls = [c] ∧ c.resp = .fail e
+  | some (.err _) => calls.length ≤ 1
+
+/-- the history of `n` calls of `next()`, continued behind every item: items with their calls -/
+def traceC {δ : Type} (tc : TestCase) (drv : Driver δ) (fuel : Nat) : Nat → RowIt → δ → List (Option Item × List Call)
+  | 0, _, _ => []
+  | n+1, s, d =>
+    match s.nextC tc drv fuel d with
+    | .item i s' d' calls => (some i, calls) :: traceC tc drv fuel n s' d'
+    | .none s' d' => (none, []) :: traceC tc drv fuel n s' d'
+    | .panic _ _ => []
+    | .fuel => []
+
+/-- **Every driver call of a run is accounted for, also when the caller goes on behind error items**: in the
+history of any number of `next()` calls from any state, each `next()` made exactly the calls its item accounts
+for — one per row (with the row's inputs), the failing one for a driver error, none at the end. -/
+theorem C02_continued_run {δ : Type} (tc : TestCase) (drv : Driver δ) (fuel : Nat) :
+    ∀ (n : Nat) (s : RowIt) (d : δ), ∀ p ∈ traceC tc drv fuel n s d, StepAccounted p.1 p.2
+  | 0, _, _, p, hp => by simp [traceC] at hp
+  | n+1, s, d, p, hp => by
+    have h1 := C02_next_calls_continued tc drv fuel s d
+    simp only [traceC] at hp
+    cases hx : s.nextC tc drv fuel d with
+    | panic m c => simp [hx] at hp
+    | fuel => simp [hx] at hp
+    | none s' d' =>
+      simp only [hx, List.mem_cons] at hp
+      rcases hp with rfl | hp
+      · simp [StepAccounted]
+      · exact C02_continued_run tc drv fuel n s' d' p hp
+    | item i s' d' calls =>
+      simp only [hx, List.mem_cons] at hp
+      rw [hx] at h1
+      rcases hp with rfl | hp
+      · cases i with
+        | row r => simpa [StepAccounted] using h1
+        | err e =>
+          cases e with
+          | driver e' => simpa [StepAccounted] using h1
+          | wrongNumberOfOutputs a b => simpa [StepAccounted] using h1
+          | wrongOutputOrder => simpa [StepAccounted] using h1
+          | missingOutputs ns => simpa [StepAccounted] using h1
+          | expr e' => simpa [StepAccounted] using h1
+      · exact C02_continued_run tc drv fuel n s' d' p hp
 
 /-- the kind of the call is decided by the row's checked flag alone -/
 theorem C02_call_kind {δ : Type} (tc : TestCase) (drv : Driver δ) (fuel : Nat) (s s' : RowIt) (d d' : δ)
